@@ -1649,3 +1649,7 @@ mod tests {
         assert_eq!(buffer.as_slice(), &input);
     }
 }
+
+#[cfg(kani)]
+#[path = "/verif/kani/arrow-buffer/util/bit_util.rs"]
+mod verif_kani;
